@@ -840,7 +840,7 @@ fn list_arith(lang: Lang) -> Vec<Triple> {
 impl Space {
     pub fn build(tier: Tier) -> Space {
         let max_tokens = tier.pick(3, 4);
-        let ladder_max_log2 = 14u32;
+        let ladder_max_log2 = tier.pick(12u32, 14u32);
         let mut segs: Vec<Seg> = vec![];
         let mut push = |lang: Lang, family: &'static str, kind: SegKind, count: usize| {
             segs.push(Seg { lang, family, kind, start: 0, count });
